@@ -96,6 +96,9 @@ def setup(tier, seed):
         [('T1', 'long', 'futures'), ('T1', 'short', 'futures'), ('T3', 'long', 'futures'), ('T4', 'short', 'futures'), ('T1', 'long', 'spot'), ('T8', 'long', 'futures')]
     for kind, side, exch in sess:
         jobs.append(Job('sess_3_%s_%s_%s' % (kind, side, exch), h_session, {'n': 3, 'kind': kind, 'side': side, 'exch': exch}, {'max_decisions': 4000}))
+    # three resting entries (prices in any order, ties included) against ONE symbolic minute
+    for side in (('long',) if tier == 'quick' else ('long', 'short')):
+        jobs.append(Job('sess_2_T2x_%s_futures' % side, h_session, {'n': 2, 'kind': 'T2x', 'side': side, 'exch': 'futures'}, {'max_decisions': 4000}))
     spec = {
         'jobs': jobs,
         'budget_s': 600 if tier == 'quick' else 2400,
